@@ -60,6 +60,20 @@ CHECKS = {
         "runtime monitoring: reference-model oracle over probe reference slots + schedule injection (file order)",
         "3/C06",
     ),
+    "C07": (
+        "exploration",
+        "Runtime monitor on the real correlate(): programs reusing a 4-name pool across provider module, decoy module, consumer "
+        "module, sibling procedures, an internal procedure and an external decoy (random letter case; some names declared nowhere; "
+        "sometimes an extra_mods entry named like the provider) hold reference slots in every scope (variable type, parent type, "
+        "procedure-pointer interface, binding target, deferred interface, finaliser, generic specific, call); the object in each slot "
+        "is compared with an independent host/use-association lookup. Further cases: equally named submodules under two modules, "
+        "child submodules, separate module procedures, constructors with a same-named decoy type, type-bound call chains whose "
+        "first label is declared with different types in nested scopes.",
+        "Trusts lookup() (15 lines) as the scoping rule; slots whose visible entity has another kind are not generated (invalid "
+        "Fortran); references to undeclared names are generated on purpose and must stay unresolved.",
+        "runtime monitoring: reference-model oracle over reference slots + recorder on _find_chain_item",
+        "3/C07",
+    ),
     "C08": (
         "exploration",
         "Runtime monitor on the real parser + correlate(): executable parts are generated from a statement/expression grammar that "
